@@ -10,9 +10,19 @@ package bits
 //@   trusted
 //@   pure
 //@   ensures len(opts) == 0 ==> len(result) == fieldBits() && fresh(result) && allBool(result) && bsum(result) == ival(den(v))
+//   with WithNbDigits(n), n > 0: n boolean wires whose sum is v over the integers, hence v < 2^n
+//@   ensures len(opts) == 1 && optNbDigits(opts[0]) > 0 ==> len(result) == optNbDigits(opts[0]) && fresh(result) && allBool(result) && bsum(result) == ival(den(v)) && fits(ival(den(v)), optNbDigits(opts[0]))
 
 // Without options FromBinary returns sum_k digits[k]*2^k (as a field element).
 //@ contract FromBinary
 //@   trusted
 //@   pure
 //@   ensures len(opts) == 0 ==> stable(result) && den(result) == ofInt(bsum(digits))
+
+// The option closures carry their argument: optNbDigits(o) is the digit count a WithNbDigits option sets
+// (definitional; the closure body is `opt.NbDigits = nbDigits` and is not traced by the verifier).
+//@ spec func optNbDigits(o BaseConversionOption) int
+//@ contract WithNbDigits
+//@   trusted
+//@   pure
+//@   ensures optNbDigits(result) == nbDigits
